@@ -621,6 +621,19 @@ class Driver:
                 return s.attrs[a]
             f = self.p.resolve(self.cls, a)
             if f is not None:
+                if f.is_property:
+                    # a read-only accessor: its single `return E` evaluated on the current state
+                    body = [st for st in f.node.body if not (isinstance(st, ast.Expr) and isinstance(st.value, ast.Constant))]
+                    if len(body) == 1 and isinstance(body[0], ast.Return) and body[0].value is not None:
+                        saved = s.env
+                        s.env = {f.params[0]: SelfRef()}
+                        try:
+                            vs = self.evalf(body[0].value, s, f)
+                        finally:
+                            s.env = saved
+                        if len(vs) == 1:
+                            return vs[0][1]
+                    raise AnalysisError("%s:%d property %s is not a single-expression accessor" % (func.qualname, node.lineno, a))
                 return Bound(f)
             c, expr = self.p.class_attr(self.cls, a)
             if expr is not None:
